@@ -260,14 +260,17 @@ def run_case(case, acc):
                         viols.append(("cpu_times_percent_out_of_range", ctx + f" field {names[i]}={v}"))
                     want = Fraction(100 * d[i], tot) if tot > 0 else Fraction(0)
                     if not close(v, min(want, Fraction(100))):
-                        feature = ":subsecond_total" if 0 < tot < CLK else ""
+                        # the recorded finding divides by max(1 s, elapsed): with less than one CPU-second elapsed the share
+                        # comes out as 100 * delta / CLK - only an answer of exactly that shape is the known mechanism
+                        known_shape = 0 < tot < CLK and close(v, min(Fraction(100 * d[i], CLK), Fraction(100)))
+                        feature = ":subsecond_total" if known_shape else ""
                         viols.append((f"cpu_times_percent_wrong{feature}", ctx + f" field {names[i]} got {v} want {float(want):.3f} "
                                                                                      f"delta={d} total_ticks={tot}"))
                         break
-                    if i < 8:
-                        ssum += Fraction(v)
+                ssum = sum((Fraction(v) for v in list(row)[:8]), Fraction(0))
                 if tot > 0 and abs(ssum - 100) > Fraction(0.05) * min(nf, 8) + Fraction(1, 10**6):
-                    feature = ":subsecond_total" if tot < CLK else ""
+                    known_shape = tot < CLK and abs(ssum - Fraction(100 * sum(d[:8]), CLK)) <= Fraction(0.05) * min(nf, 8) + Fraction(1, 10**6)
+                    feature = ":subsecond_total" if known_shape else ""
                     viols.append((f"cpu_times_percent_sum_not_100{feature}", ctx + f" sum={float(ssum)} row={tuple(row)} total_ticks={tot}"))
         if len(loads) >= 2:
             nontrivial[0] = True
